@@ -15,5 +15,6 @@ INVARIANT LawCompleteIsOptimal
 INVARIANT LawRecursionIsOptVal
 INVARIANT LawZeroPairsAreFree
 INVARIANT LawSelfIsOne
+INVARIANT LawZeroExtentUnpaired
 PROPERTY Terminates
 CHECK_DEADLOCK FALSE
